@@ -88,7 +88,9 @@ type FuncContract struct {
 	Inline   bool
 	Trusted  bool
 	NoPanic  bool
+	MayPanic bool // caller-supplied component: the call may exit by panic
 	Logged   bool // record calls in the call log
+	CallsDecl []string // logged callees this function may (transitively) call
 	Loops    map[string]*LoopContract
 	Asserts  []AnchorAssert
 	Props    []string
@@ -197,7 +199,7 @@ func ParseContractFile(path, pkgPath string) (*ContractFile, error) {
 }
 
 var keywords = []string{"import", "abstract", "spec", "axiom", "func", "extern", "interface", "global-invariant",
-	"requires", "ensures", "modifies", "pure", "inline", "trusted", "nopanic", "logged", "fresh", "loop", "invariant", "decreases", "assert", "assume", "props", "panics", "stmt"}
+	"requires", "ensures", "modifies", "pure", "inline", "trusted", "nopanic", "logged", "fresh", "loop", "invariant", "decreases", "assert", "assume", "props", "panics", "stmt", "calls", "maypanic"}
 
 func splitKeyword(t string) (string, string) {
 	for _, k := range keywords {
@@ -387,6 +389,10 @@ func (cf *ContractFile) addItem(kw, text string, line int, cur **FuncContract, c
 			fc.Logged = true
 		case "fresh":
 			fc.Fresh = true
+		case "calls":
+			fc.CallsDecl = append(fc.CallsDecl, strings.Fields(strings.ReplaceAll(text, ",", " "))...)
+		case "maypanic":
+			fc.MayPanic = true
 		case "props":
 			fc.Props = append(fc.Props, strings.Fields(strings.ReplaceAll(text, ",", " "))...)
 		case "loop":
